@@ -51,7 +51,13 @@ func (r *UnitRun) evalExpr(st *State, e ast.Expr) Val {
 		panic(toolLimit("unbound identifier " + e.Name))
 	case *ast.FuncLit:
 		u := r.prog.ByLit[e]
-		return Val{K: KFunc, Fn: &FuncVal{unit: u, typ: r.typeOf(e), st: st}, Go: r.typeOf(e)}
+		fv := Val{K: KFunc, Fn: &FuncVal{unit: u, typ: r.typeOf(e), st: st}, Go: r.typeOf(e)}
+		if u != nil && u.Implements != "" {
+			// a closure under a function-type protocol is a new function value now: its ghost protocol state starts here
+			// (not whenever the value is first used)
+			r.toTerm(st, fv, nil)
+		}
+		return fv
 	case *ast.UnaryExpr:
 		switch e.Op {
 		case token.NOT:
